@@ -550,7 +550,8 @@ void tid_episode_t(TidCfg cfg, TidModel& model, vf::Rng& r, uint64_t ep_seed) {
   for (int g = 0; g < cfg.generations && ok && !vf::failed(); ++g) {
     // ---- births
     int room = cfg.max_alive - int(alive.size());
-    int n = room > 0 ? int(r.range(1, uint64_t(room))) : 0;
+    // episodes drawn for > 128 alive threads fill up in the first generation (for_each over more than one block)
+    int n = room > 0 ? ((cfg.max_alive > 128 && g == 0) ? room : int(r.range(1, uint64_t(room)))) : 0;
     bool sequential = r.chance(1, 2);
     // ---- deaths racing with the births of this generation (only in concurrent generations)
     ::std::vector<TidThread*> dying;
